@@ -16,6 +16,9 @@ func init() {
 			// the extension helpers that block on a correlated reply
 			c15.RunWaits(r)
 			c18.RunWaits(r)
+			// round C: bounded-exhaustive MUC wait episodes (harness/c18/waits_c06.go, a file of
+			// the C06 builder inside that package; the listener histories are in c06/expect.go)
+			c18.RunC06Waits(r)
 		}
 		return nil
 	}
